@@ -30,8 +30,9 @@ func (fixedClock) ReportCreationTime() time.Time {
 
 type outcome struct {
 	Kind   string // ok | error | panic | timeout
-	Report string
+	Report string // a private copy of the returned text, taken the moment the call returned
 	Err    string
+	Raw    string // the very string the library returned (shares whatever memory the library used for it)
 }
 
 // validate runs pkg.ValidateWithConfiguration under recover and a timeout.
@@ -52,7 +53,7 @@ func validateAt(profile, data string, rc config.ReportConfiguration, clock confi
 			ch <- outcome{Kind: "error", Err: err.Error()}
 			return
 		}
-		ch <- outcome{Kind: "ok", Report: rep}
+		ch <- outcome{Kind: "ok", Report: strings.Clone(rep), Raw: rep}
 	}()
 	select {
 	case o := <-ch:
